@@ -74,6 +74,7 @@ class Module:
         self.parent: Dict[ast.AST, ast.AST] = {}
         self.scopes: Dict[ast.AST, Scope] = {}
         self.bindings: Dict[str, tuple] = {}
+        self.bind_count: Dict[str, int] = {}
         self._index()
 
     # ------------------------------------------------------------------
@@ -119,6 +120,7 @@ class Module:
                     _target_names(t, names)
                 for n in names:
                     self.bindings[n] = ("assign", st.value)
+                    self.bind_count[n] = self.bind_count.get(n, 0) + 1
             elif isinstance(st, ast.AnnAssign) and isinstance(st.target, ast.Name) and st.value is not None:
                 self.bindings[st.target.id] = ("assign", st.value)
             elif isinstance(st, ast.Try):
